@@ -265,6 +265,7 @@ defrecord('CFG', V=SET(ATOM), Sigma=SET(ATOM), R=LIST(REC('Rule')), S=ATOM, epsi
 # the generic automaton description produced by the tokeniser (automaton.py) and the builder objects that turn it into a DFA / NFA / ... (C17);
 # regular expressions for labels are opaque names (their matching relation is the uninterpreted predicate re_fullmatch)
 defrecord('Automaton', states=SET(ATOM), transitions=LIST(KEY3), initial_states=SET(ATOM), final_states=SET(ATOM), items=MAP(ATOM, LIST(ATOM)))
+defrecord('Parser', keywords=SET(ATOM), state_regex=ATOM, transition_regex=ATOM, items=MAP(ATOM, LIST(ATOM)), states=SET(ATOM), transitions=LIST(KEY3), initial_states=SET(ATOM), final_states=SET(ATOM))
 defrecord('Builder', A=REC('Automaton'), state_regex=ATOM, transition_regex=ATOM, symbol_regex=ATOM)
 
 
